@@ -1305,3 +1305,70 @@ Proof.
   - intros c. split; [apply filter_pure_tuple | apply filter_tuple_result].
   - intros. apply filter_generated_pure. assumption.
 Qed.
+
+(* ------------------------------ the shifting loops equal their closed form *)
+
+Lemma Qceiling_unique x k : inject_Z (k - 1) < x -> x <= inject_Z k -> Qceiling x = k.
+Proof.
+  intros H1 H2. pose proof (Qle_ceiling x) as H3. pose proof (Qceiling_lt x) as H4.
+  assert (A : inject_Z (k - 1) < inject_Z (Qceiling x)) by lra.
+  assert (B : inject_Z (Qceiling x - 1) < inject_Z k) by lra.
+  rewrite <- Zlt_Qlt in A, B. lia.
+Qed.
+
+Section Closed.
+  Variable tau : Q.
+  Hypothesis tau_pos : 0 < tau.
+
+  Lemma shift_up_count fuel bmin lo hi m lo' hi' m' :
+    shift_up tau fuel bmin (lo, hi) m = Some (lo', hi', m') ->
+    lo' == lo + inject_Z (up_count tau bmin lo) * tau /\ hi' == hi + inject_Z (up_count tau bmin lo) * tau.
+  Proof.
+    intros H. apply shift_up_spec in H. destruct H as (k & Hk & E1 & E2 & Hge & Hkk).
+    assert (Ek : up_count tau bmin lo = k).
+    { unfold up_count. set (r := (bmin - lo) / tau).
+      assert (Er : r * tau == bmin - lo) by (unfold r; field; lra).
+      destruct Hkk as [-> | Hlt].
+      - change (inject_Z 0) with 0 in E1.
+        assert (r <= 0) by nra.
+        assert (Qceiling r <= 0)%Z by (rewrite <- (Qceiling_Z 0); apply Qceiling_resp_le; assumption). lia.
+      - assert (Hc : Qceiling r = k).
+        { apply Qceiling_unique; [rewrite inject_Z_sub; change (inject_Z 1) with 1|]; nra. }
+        lia. }
+    rewrite Ek. split; assumption.
+  Qed.
+
+  Lemma shift_down_count fuel bmin lo hi m lo' hi' m' :
+    shift_down tau fuel bmin (lo, hi) m = Some (lo', hi', m') ->
+    lo' == lo - inject_Z (down_count tau bmin lo) * tau /\ hi' == hi - inject_Z (down_count tau bmin lo) * tau.
+  Proof.
+    intros H. apply shift_down_spec in H. destruct H as (j & Hj & E1 & E2 & Hle & Hjj).
+    assert (Ej : down_count tau bmin lo = j).
+    { unfold down_count. set (s := (lo - bmin) / tau).
+      assert (Es : s * tau == lo - bmin) by (unfold s; field; lra).
+      destruct Hjj as [-> | Hgt].
+      - change (inject_Z 0) with 0 in E1.
+        assert (s <= 1) by nra.
+        assert (Qceiling s <= 1)%Z by (rewrite <- (Qceiling_Z 1); apply Qceiling_resp_le; assumption). lia.
+      - assert (Hc : Qceiling s = (j + 1)%Z).
+        { apply Qceiling_unique.
+          - replace (j + 1 - 1)%Z with j by lia. nra.
+          - rewrite inject_Z_plus. change (inject_Z 1) with 1. nra. }
+        lia. }
+    rewrite Ej. split; assumption.
+  Qed.
+
+  (* the two loops of pyx 245-251 compute the closed form *)
+  Lemma shift_loops_closed fuel bmin lo hi m lo1 hi1 m1 lo2 hi2 m2 :
+    shift_up tau fuel bmin (lo, hi) m = Some (lo1, hi1, m1) ->
+    shift_down tau fuel bmin (lo1, hi1) m1 = Some (lo2, hi2, m2) ->
+    lo2 == fst (shift_closed tau bmin (lo, hi)) /\ hi2 == snd (shift_closed tau bmin (lo, hi)).
+  Proof.
+    intros Hu Hd. apply shift_up_count in Hu. apply shift_down_count in Hd.
+    destruct Hu as [U1 U2], Hd as [D1 D2]. unfold shift_closed; cbn [fst snd].
+    assert (Ec : down_count tau bmin lo1 = down_count tau bmin (lo + inject_Z (up_count tau bmin lo) * tau)).
+    { unfold down_count. f_equal. f_equal. apply Qceiling_comp. unfold Qdiv. apply Qmult_comp; [lra | reflexivity]. }
+    rewrite <- Ec. set (j := down_count tau bmin lo1) in *. clearbody j.
+    set (k := up_count tau bmin lo) in *. clearbody k. split; lra.
+  Qed.
+End Closed.
